@@ -169,6 +169,11 @@ class Prov:
             if step.startswith("unpack:") and len(p) >= 2 and p[-1] == "elem" and p[-2].endswith(":zip") and p[-2].startswith("arg") \
                     and p[-2][3:-4].isdigit() and p[-2][3:-4] != step[7:]:
                 continue  # the i-th component of an element of zip(a0, a1, ..) comes from a_i only
+            rec = self._record_step(p, step)
+            if rec is not None:
+                if rec != ():
+                    out.add(rec)    # reading back the field of a record that was just built: the constructor argument itself
+                continue
             if step.startswith(("arg", "kw:")) and step in p:
                 # a value fed again through the same call position with nothing but call positions in between (loop-carried
                 # accumulators): one step says it
@@ -178,6 +183,35 @@ class Prov:
                     continue
             out.add(p + (step,) if len(p) < MAXLEN else p)
         return out
+
+    def _record_step(self, p: Path, step: str):
+        """`Rec(a, b).x` / `x, y = Rec(a, b)` / `Rec(a, b)[0]` for a record class (NamedTuple / dataclass without own constructor): the path
+        of the matching constructor argument (put in, taken out again); () when the path belongs to another field; None when not applicable"""
+        last = p[-1]
+        if not (last.startswith("arg") or last.startswith("kw:") or last.startswith("fresh:")):
+            return None
+        cls = last.rsplit(":", 1)[1] if ":" in last else ""
+        ci = self.repo.classes.get(cls)
+        if ci is None or not getattr(ci, "record_kind", None):
+            return None
+        names = [f for f, _d in ci.record_fields]
+        want = None
+        if step.startswith("attr:") and step[5:] in names:
+            want = step[5:]
+        elif ci.record_kind == "namedtuple" and (step.startswith("unpack:") or step.startswith("item:")):
+            k = step.split(":", 1)[1]
+            if k.lstrip("-").isdigit() and -len(names) <= int(k) < len(names):
+                want = names[int(k)]
+        if want is None:
+            return None
+        if last.startswith("fresh:"):
+            return () if len(p) == 1 else None      # the record object itself has no content of its own
+        if last.startswith("kw:"):
+            have = last.split(":")[1]
+        else:
+            i = last[3:last.index(":")]
+            have = names[int(i)] if i.isdigit() and int(i) < len(names) else None
+        return p[:-1] if have == want else ()
 
     def _comp_binding(self, name_node: ast.Name):
         """If the name is bound by an enclosing comprehension, return (generator, position-in-target)."""
